@@ -3,3 +3,5 @@
 
 #[cfg(kani)]
 mod c11;
+#[cfg(kani)]
+mod c18;
